@@ -312,6 +312,21 @@ def r20_eprintln(text):
     return _remove_macro_stmts(text, ['eprintln', 'println'])
 
 
+def r21_format(text):
+    """R21: `format!(...)` (diagnostic message construction) -> `fmt_msg()` (prelude stub returning an opaque message);
+    the message text is not part of any contract"""
+    cnt = 0
+    while True:
+        m = mask(text)
+        mm = re.search(r'\bformat!\s*\(', m)
+        if not mm:
+            return text, cnt
+        op = mm.end() - 1
+        cl = match_close(m, op)
+        text = text[:mm.start()] + 'fmt_msg()' + text[cl + 1:]
+        cnt += 1
+
+
 def r3_debug_assert(text):
     return _remove_macro_stmts(text, ['debug_assert', 'debug_assert_eq', 'debug_assert_ne'])
 
